@@ -175,6 +175,34 @@ def h_aromatic(V, centre='C'):
 NORMAL_VALENCE = {'B': 3, 'C': 4, 'N': 3, 'O': 2, 'F': 1, 'Cl': 1, 'Br': 1, 'I': 1}
 
 
+RADICAL_VALENCE = {'C': 4, 'N': 3, 'O': 2, 'S': 2, 'B': 3}
+
+
+def h_organic_radical(V, centre):
+    """independent model for neutral mono-radicals of the organic subset: one valence is used by the unpaired electron"""
+    k = int(V.int('k', 0, 3))
+    els = ['H', 'C', 'O', 'Cl']
+    prev, codes, total = None, [], 0
+    for i in range(k):
+        c = V.int(f'n{i}', 0, 2 * len(els) - 1)
+        if prev is not None:
+            V.assume(prev <= c)
+        prev = c
+        total = total + (c // len(els) + 1)
+        V.assume(total <= RADICAL_VALENCE[centre] - 1)
+        codes.append(c)
+    codes = [int(c) for c in codes]
+    nbrs = [(c // len(els) + 1, els[c % len(els)]) for c in codes]
+    s = sum(o for o, _ in nbrs)
+    m = build_star(centre, 0, True, nbrs)
+    m.calc_implicit(1)
+    got = m._atoms[1].implicit_hydrogens
+    want = RADICAL_VALENCE[centre] - 1 - s
+    V.prove(got == want, 'neutral radical of the organic subset: hydrogens = normal valence - 1 - bond order sum',
+            {'centre': centre, 'neighbours': nbrs, 'got': got, 'want': want})
+    V.observe('h', got)
+
+
 def h_organic(V, centre, full=False):
     """independent valence model (OpenSMILES organic subset): a neutral closed-shell atom whose bond orders sum to at most
     its normal valence carries the difference as hydrogens"""
@@ -202,7 +230,7 @@ def h_organic(V, centre, full=False):
     V.observe('h', got)
 
 
-HARNESSES = {'star': h_star, 'aromatic': h_aromatic, 'organic': h_organic}
+HARNESSES = {'star': h_star, 'aromatic': h_aromatic, 'organic': h_organic, 'organic_radical': h_organic_radical}
 
 
 def finding_key(job, failure):
@@ -225,6 +253,8 @@ def jobs(tier):
               'budget_s': 120, 'max_failures': 1})
     for c in ['C', 'N', 'O', 'S', 'B']:
         J.append({'harness': 'aromatic', 'params': {'centre': c}, 'budget_s': 600, 'validate_every': 20})
+    for c in RADICAL_VALENCE:
+        J.append({'harness': 'organic_radical', 'params': {'centre': c}, 'budget_s': 300, 'validate_every': 20, 'max_failures': 20})
     for c in NORMAL_VALENCE:
         J.append({'harness': 'organic', 'params': {'centre': c, 'full': T}, 'budget_s': 600, 'validate_every': 50, 'max_failures': 20})
     return J
